@@ -1,23 +1,29 @@
 import WS.Props.C03
+import WS.Proofs.ReaderInv
 /-
   C15 (receive side) — every Ping frame read is answered by a Pong with the identical payload, in
   order; Pongs provoke nothing.  (The Ping API's wait-for-own-pong matching is part of the
   concurrent model.)
 -/
 namespace WS.Props.C15
-open WS WS.Model WS.Spec
+open WS WS.Model WS.Spec WS.Proofs.ReaderInv
 
 variable (inf : Inflate) (cfg : RCfg) (limits : List Int)
 
 theorem ping_answered (st : RState) (f : Frame) (rest : List Frame) (tl : Tail)
     (hc : headerCheck cfg f.h = none) (ho : f.h.opcode = opPing) :
     runReader inf cfg limits st (f :: rest) tl = .reply opPong f.data :: runReader inf cfg limits st rest tl := by
-  sorry
+  have ho' : (f.h.opcode == opPing) = true := by rw [ho]; decide
+  rw [runReader, hc]
+  simp only [ho', if_true]
 
 theorem pong_ignored (st : RState) (f : Frame) (rest : List Frame) (tl : Tail)
     (hc : headerCheck cfg f.h = none) (ho : f.h.opcode = opPong) :
     runReader inf cfg limits st (f :: rest) tl = runReader inf cfg limits st rest tl := by
-  sorry
+  have h1 : (f.h.opcode == opPing) = false := by rw [ho]; decide
+  have h2 : (f.h.opcode == opPong) = true := by rw [ho]; decide
+  rw [runReader, hc]
+  simp only [h1, h2, if_true, Bool.false_eq_true, if_false]
 
 def pongPayload : Ev → Option Bytes
   | .reply op p => if op = opPong then some p else none
@@ -28,11 +34,79 @@ before reading stopped — never a Pong without a Ping, never a different payloa
 theorem pongs_prefix_of_pings (st : RState) (fs : List Frame) (tl : Tail) :
     (runReader inf cfg limits st fs tl).filterMap pongPayload <+:
       (fs.filter (fun f => f.h.opcode == opPing)).map Frame.data := by
-  sorry
+  have hq : ∀ l : List Ev, (∀ ev ∈ l, Quiet ev) → l.filterMap pongPayload = [] := by
+    intro l hl
+    rw [List.filterMap_eq_nil_iff]
+    intro ev hev
+    rcases hl ev hev with ⟨p, rfl⟩ | ⟨w, rfl⟩ | ⟨t, d, w, a, rfl⟩
+    · have : ¬ opClose = opPong := by decide
+      simp [pongPayload, this]
+    · rfl
+    · rfl
+  have hfin : ∀ st evs o, finishMsg inf cfg limits st = (evs, o) → evs.filterMap pongPayload = [] := by
+    intro st evs o hf
+    cases o with
+    | none => exact hq _ (finishMsg_none_quiet inf cfg limits st evs hf)
+    | some st' =>
+      rcases finishMsg_some inf cfg limits st evs st' hf with rfl | ⟨typ, out, rfl⟩ <;> rfl
+  have hdata : ∀ st h d evs o, dataStep inf cfg limits st h d = (evs, o) → evs.filterMap pongPayload = [] := by
+    intro st h d evs o hd
+    have := dataStep_quiet inf cfg limits st h d
+    rw [hd] at this
+    exact hq _ this
+  have hnp : ∀ f : Frame, (f.h.opcode == opPing) = false → ∀ rest : List Frame,
+      (List.filter (fun f => f.h.opcode == opPing) (f :: rest)) = List.filter (fun f => f.h.opcode == opPing) rest := by
+    intro f hf rest
+    simp only [List.filter_cons, hf, Bool.false_eq_true, if_false]
+  refine runReader_induct inf cfg limits
+    (fun _ fs out => out.filterMap pongPayload <+: (fs.filter (fun f => f.h.opcode == opPing)).map Frame.data)
+    ?_ ?_ ?_ ?_ ?_ ?_ ?_ ?_ ?_ fs st tl
+  · intro st fs why _ _
+    rw [hq _ (stopIn_quiet inf cfg limits st why)]
+    exact List.nil_prefix
+  · intro st h d evs hd
+    rw [hdata _ _ _ _ _ hd]
+    exact List.nil_prefix
+  · intro st h d evs st' hd
+    rw [List.filterMap_append, hdata _ _ _ _ _ hd, hq _ (stopIn_quiet inf cfg limits st' .io)]
+    exact List.nil_prefix
+  · intro st f rest r hp ih
+    simp only [List.filter_cons, hp, if_true, List.map_cons, List.filterMap_cons, pongPayload]
+    exact (List.prefix_cons_inj _).mpr ih
+  · intro st f rest r hp _ ih
+    rw [hnp f hp]
+    exact ih
+  · intro st f rest evs _ _ hd
+    rw [hdata _ _ _ _ _ hd]
+    exact List.nil_prefix
+  · intro st f rest evs st' evs2 _ _ hd _ hf
+    rw [List.filterMap_append, hdata _ _ _ _ _ hd, hfin _ _ _ hf]
+    exact List.nil_prefix
+  · intro st f rest evs st' evs2 st'' r hp _ hd _ hf ih
+    rw [List.filterMap_append, List.filterMap_append, hdata _ _ _ _ _ hd, hfin _ _ _ hf, hnp f hp]
+    exact ih
+  · intro st f rest evs st' r hp _ hd _ ih
+    rw [List.filterMap_append, hdata _ _ _ _ _ hd, hnp f hp]
+    exact ih
 
 /-- on a valid sequence every Ping — before, between or inside fragmented messages — is answered. -/
 theorem valid_pongs_all (L : Int) (p : Pending) (fs : List Frame) :
     (specRun p fs).1.filterMap pongPayload = (fs.filter (fun f => f.h.opcode == opPing)).map Frame.data := by
-  sorry
+  induction fs generalizing p with
+  | nil => rfl
+  | cons f fs ih =>
+    simp only [specRun, List.filterMap_append, ih]
+    by_cases hp : f.h.opcode = opPing
+    · have hp' : (f.h.opcode == opPing) = true := by rw [hp]; decide
+      simp [specStep, hp, pongPayload]
+    · have hp' : (f.h.opcode == opPing) = false := by simpa using hp
+      simp only [List.filter_cons, hp', Bool.false_eq_true, if_false]
+      have : (specStep p f).1.filterMap pongPayload = [] := by
+        unfold specStep
+        simp only [hp, if_false]
+        split
+        · rfl
+        · split <;> split <;> rfl
+      rw [this]; rfl
 
 end WS.Props.C15
